@@ -53,24 +53,25 @@ def bfs (fs : List Fn) : Nat → List Ty → List Ty → List Ty → List Ty →
         if inputs.contains t then bfs fs fuel queue visited (inputs.filter (· != t)) missing
         else bfs fs fuel queue visited inputs (missing ++ [t])
 
-/-- `findFlowCyclesForFunc`: depth-first search with path check and memo; returns (cycle found, memo). -/
+/-- Dependency types of the provider of `t` (none if no function provides `t`). -/
+def provDeps (fs : List Fn) (t : Ty) : Option (List Ty) :=
+  (providerOf fs t).map fun i => (fs.getD i default).deps
+
+/-- `findFlowCyclesForFunc`: depth-first search with path check and memo; returns (cycle found, memo).
+    The Go recursion needs no fuel (the path grows with distinct types); here the fuel is
+    `#types + 2` and running out of it is reported as a cycle (unreachable, see `Gen.Cycle`). -/
 def dfsCycle (fs : List Fn) : Nat → List Ty → Ty → List Ty → Bool × List Ty
-  | 0, _, _, visited => (false, visited)
+  | 0, _, _, visited => (true, visited)
   | fuel + 1, path, t, visited =>
-    match providerOf fs t with
+    match provDeps fs t with
     | none => (false, visited)
-    | some i =>
+    | some ds =>
       if path.contains t then (true, visited)
       else if visited.contains t then (false, visited)
       else
-        let rec go (ds : List Ty) (visited : List Ty) : Bool × List Ty :=
-          match ds with
-          | [] => (false, visited)
-          | d :: ds =>
-            let (c, v) := dfsCycle fs fuel (path ++ [t]) d visited
-            if c then (true, v) else go ds v
-        let (c, v) := go (fs.getD i default).deps visited
-        if c then (true, v) else (false, t :: v)
+        let r := ds.foldl (fun (acc : Bool × List Ty) d =>
+          if acc.1 then acc else dfsCycle fs fuel (path ++ [t]) d acc.2) (false, visited)
+        if r.1 then (true, r.2) else (false, t :: r.2)
 
 def allTypes (p : Prog) : List Ty :=
   (p.params ++ p.results ++ (funcs p).flatMap (fun f => f.deps ++ f.provides)).eraseDups
